@@ -341,7 +341,7 @@ def render_pos_case(c):
         body = [line]
     elif k in ("indirect_true", "indirect_list"):
         body = [line, "def test_i(fx):", "    pass"]
-    elif k in ("defname", "defname_async"):
+    elif k in ("defname", "defname_async", "defname_wide", "defname_async_wide"):
         body = ["@pytest.fixture", line, "    return 1"]
     elif k == "defname_tab":
         body = ["class TestK:", "\t@pytest.fixture", line, "\t\treturn 1"]
@@ -415,7 +415,9 @@ def check_c15(tier):
     # ---- structural rules of LSP responses on the C03 function corpus (real binary)
     C.build_server()
     m = C.run_tlc("Extract", "Extract_body.cfg", workers=4, timeout=3600)
-    fcases = [x for x in C.tlc_cases(m)][:: (6 if tier == "quick" else 1)]
+    fcases = [x for x in C.tlc_cases(m)]
+    multi = [x for x in fcases if x["fn"]["body"] in FIRST_YIELD and x["fn"]["ret"] == "none"]
+    fcases = fcases[:: (6 if tier == "quick" else 1)] + (multi if tier == "quick" else [])
     base = os.path.join(C.BUILD, "ws", "c15-%d" % os.getpid())
     import shutil
     shutil.rmtree(base, ignore_errors=True)
@@ -436,6 +438,7 @@ def check_c15(tier):
                    "definition": srv.pos_request("textDocument/definition", path, tline, 15),
                    "references": srv.pos_request("textDocument/references", path, tline, 15, {"context": {"includeDeclaration": True}}),
                    "lens": srv.doc_request("textDocument/codeLens", path),
+                   "implementation": srv.pos_request("textDocument/implementation", path, tline, 15),
                    "text": text, "tline": tline}
             out["alive"] = srv.alive()
             return out
@@ -476,6 +479,14 @@ def check_c15(tier):
             ok_lines = {d0[0]["line"]} | ({d0[0]["yield_line"]} if d0[0]["yield_line"] else set())
             if tgt not in ok_lines:
                 V.violation(dict(ex, target_line=tgt, def_line=d0[0]["line"]), "go-to-definition does not land on the def (or yield) line")
+        # go-to-implementation: where the fixture yields its value (the FIRST own yield in source order), else the def line
+        imp = r.get("implementation")
+        if d0 and imp and not (isinstance(imp, dict) and "__error__" in imp):
+            loc = imp if isinstance(imp, dict) else imp[0]
+            tgt = loc["range"]["start"]["line"] + 1
+            want = d0[0]["yield_line"] or d0[0]["line"]
+            if tgt != want:
+                V.violation(dict(ex, target_line=tgt, expected_line=want), "go-to-implementation does not land on the line where the fixture yields its value (or its def line)")
         refs = r["references"] or []
         keys = [json.dumps(x, sort_keys=True) for x in refs]
         if len(keys) != len(set(keys)):
